@@ -3,11 +3,15 @@ mod c02;
 mod c03;
 mod c11;
 mod codec;
+mod mem;
 mod part;
 mod cont;
 mod util;
 
 use util::*;
+
+#[global_allocator]
+static GLOBAL: mem::Counting = mem::Counting;
 
 fn main() {
     let args: Vec<String> = std::env::args().collect();
@@ -21,6 +25,23 @@ fn main() {
     let outdir = &args[4];
     install_quiet_panic_hook();
     let mut rng = Rng::new(seed ^ fnv(prop.as_bytes()));
+    if prop == "memprobe" {
+        for (dict, normal, bt4, lc, lp, nice) in [(4096u32, false, false, 3u32, 0u32, 64u32), (1 << 20, true, true, 3, 0, 64), (100_000, true, false, 0, 4, 273), (65536, false, true, 2, 2, 8)] {
+            let o = codec::LzOpts { dict, lc, lp, pb: 2, normal, nice, bt4, depth: 0, preset: None };
+            let (_, v) = mem::large_allocs(|| {
+                let mut w = lzma_rust2::LZMA2Writer::new(Vec::new(), lzma_rust2::LZMA2Options { lzma_options: o.to_opts(), chunk_size: None });
+                use std::io::Write;
+                w.write_all(&[1u8; 1000]).unwrap();
+                w.finish().unwrap()
+            });
+            println!("enc dict={dict} normal={normal} bt4={bt4} lc={lc} lp={lp} nice={nice}: {:?} est={}", v, o.to_opts().get_memory_usage());
+            let (_, v) = mem::large_allocs(|| lzma_rust2::LZMA2Reader::new(&b""[..], dict, None));
+            println!("lzma2dec dict={dict}: {:?} est={}", v, lzma_rust2::lzma2_get_memory_usage(dict));
+            let (_, v) = mem::large_allocs(|| lzma_rust2::LZMAReader::new(&[0u8, 0, 0, 0, 0][..], u64::MAX, lc, lp, 2, dict, None).map(|_| ()));
+            println!("lzmadec dict={dict} lc={lc} lp={lp}: {:?} est={:?}", v, lzma_rust2::lzma_get_memory_usage(dict, lc, lp));
+        }
+        return;
+    }
     let mut rep = match prop {
         "C01" => {
             let mut rep = Report::new("C01", "cases = (format variant, data kind, size class, partition style, option class); one PRNG; non-trivial = non-empty input; distinct = distinct signature");
@@ -55,6 +76,11 @@ fn main() {
         "C18" => {
             let mut rep = Report::new("C18", "XZ block sizes (from the index), LZIP member sizes (from the trailers), LZMA2 MT unit sizes (from the chunk headers) against the configured limit raised to the dictionary size, for one huge write and random partitions; member_count/chunk_count of the MT readers; .lzma expected size equal/smaller/larger; non-trivial = non-empty data");
             part::run_c18(&mut rep, &mut rng, thorough);
+            rep
+        }
+        "C17" => {
+            let mut rep = Report::new("C17", "grid dictionary size x mode x match finder x (lc,lp) for the encoder estimate; dictionary x (lc,lp) for the decoder estimates; peak heap measured by a counting global allocator; .lzma headers x limits need-1/need/need+1; all cases non-trivial; distinct = distinct grid point");
+            mem::run(&mut rep, &mut rng, thorough);
             rep
         }
         "C12" => {
